@@ -46,6 +46,8 @@ def run(ctx):
                     vs.append({"sysmode": "td", "subdiv": None, "num_steps": nsub})
         if idx % 3 == 0:
             vs.append({"sysmode": "td", "unique": True})
+        if idx % 3 == 1:
+            vs.append({"sysmode": "td", "unique": True, "rot": "haar"})      # non-diagonal coupling with degeneracy reduction
         for v in vs:
             jobs.append({"case": case, "variant": v, "seed": ctx.seed})
     results = core.pmap(eng.run_variant, jobs, chunksize=4)
